@@ -9,7 +9,7 @@ ALL = ['C%02d' % i for i in range(1, 21)]
 
 CLAIMS = {
     'C01': {
-        'text': "Lean theorems C01.canon_reads_back (the canonical tokens of every value of the built-in literal types read back, by the reader of Spec/Reader.lean, to exactly that value: container types, element order, insertion order of dicts, string contents, literal texts) and C01.output_reads_back (chained with C03.output_tokens: what pformat prints has, up to literal splitting, such a token sequence); the reader and the token spec are tied to CPython eval / tokenize on every run. Engine soundness (C04.sound) and splitter theorems (C02) apply to pformatM = render . layout . toDoc; C01.sorted_perm (key sorting only permutes entries), insertion_order. The hand-written model of every built-in printer (PP/Model/Values.lean) is tied to /repo by exact comparison of the annotated SDoc stream and text of python_to_sdocs on all small value trees over an adversarial leaf alphabet at width=ribbon=1..12 and on seeded random trees x 10-18 widths x ribbons x indents x sort flags; the oracle eval('(' + text + ')') with exact type / NaN / signed-zero / order comparison runs on every implementation output.",
+        'text': "Lean theorems C01.canon_reads_back (the canonical tokens of every value of the built-in literal types read back, by the reader of Spec/Reader.lean, to exactly that value: container types, element order, insertion order of dicts, string contents, literal texts) and C01.output_reads_back (chained with C03.output_tokens: what pformat prints has, up to literal splitting, such a token sequence); the reader and the token spec are tied to CPython eval / tokenize on every run. Engine soundness (C04.sound) and splitter theorems (C02) apply to pformatM = render . layout . toDoc; C01.output_reads_back_sorted (with sort_dict_keys on, the tokens read back to the value with every dict's entries in sorted order; Tok.inC01_shown), C01.sorted_perm (key sorting only permutes entries), insertion_order. The hand-written model of every built-in printer (PP/Model/Values.lean) is tied to /repo by exact comparison of the annotated SDoc stream and text of python_to_sdocs on all small value trees over an adversarial leaf alphabet at width=ribbon=1..12 and on seeded random trees x 10-18 widths x ribbons x indents x sort flags; the oracle eval('(' + text + ')') with exact type / NaN / signed-zero / order comparison runs on every implementation output.",
         'note': 'value-level end-to-end theorem (reader . pformatM = id / token invariance) is not proved yet: the claim rests on C04.sound_pformat (unconditional) for the engine, C02 for the splitter, the listed syntactic lemmas about the printer model, the model=code correspondence on SDoc streams, and the CPython oracle run on every implementation output',
         'technique': 'Lean 4 proof (engine + splitter) + differential correspondence of the printer model + eval oracle',
         'design_ref': 'DESIGN.md section 5, C01',
@@ -21,7 +21,7 @@ CLAIMS = {
         'design_ref': 'DESIGN.md section 5, value level / token invariance',
     },
     'C08': {
-        'text': 'C08.wrapper_seq / wrapper_int / wrapper_shape: in the model a subclass instance prints as a call of the class around exactly the document of the underlying built-in value; the model has no input for __repr__/__str__ overrides. Correspondence on instances of 36 generated subclasses (9 bases x plain / __repr__ / __str__ / both) + IntEnum in 6 nesting contexts x layouts; oracle: eval reconstructs class and value. F6, F7, F17 repaired.',
+        'text': 'C08.wrapper_seq / wrapper_int / wrapper_shape: in the model a subclass instance prints as a call of the class around exactly the document of the underlying built-in value; the model has no input for __repr__/__str__ overrides. On tokens (via C03.output_tokens, so for every layout): C08.seq_wrapper_tokens / dict_wrapper_tokens / int_wrapper_tokens / str_wrapper_tokens — the output's code tokens are the class name, '(', exactly the tokens of the underlying built-in value, ')'. Correspondence on instances of 36 generated subclasses (9 bases x plain / __repr__ / __str__ / both) + IntEnum in 6 nesting contexts x layouts; oracle: eval reconstructs class and value. F6, F7, F17 repaired.',
         'note': 'value-level end-to-end theorem (reader . pformatM = id / token invariance) is not proved yet: the claim rests on C04.sound_pformat (unconditional) for the engine, C02 for the splitter, the listed syntactic lemmas about the printer model, the model=code correspondence on SDoc streams, and the CPython oracle run on every implementation output',
         'technique': 'Lean 4 proof (wrapper lemmas) + differential correspondence + eval oracle',
         'design_ref': 'DESIGN.md section 5, C08',
@@ -39,13 +39,13 @@ CLAIMS = {
         'design_ref': 'DESIGN.md section 5, C10',
     },
     'C11': {
-        'text': 'Lean theorems Limits.limits_tokens / shown_canon (the output for depth d is the unlimited output of the value with exactly the nodes at the cut replaced by placeholders of their own type; K2 / K5 visible in the definition of shown) and Limits.limit_that_does_not_bite (depth above the levels of the value = depth None). C11.depth_zero_placeholder, unlimited_never_zero. Correspondence and oracle on container trees with unique leaves x depth in {0..height+2, None}: exactly the leaves nested in fewer than depth containers appear; depth > height == None. Known findings K2 (None/bool/Ellipsis leaves), K5 (str dict keys at the cut).',
+        'text': 'Lean theorems Limits.limits_tokens / shown_canon (the output for depth d is the unlimited output of the value with exactly the nodes at the cut replaced by placeholders of their own type; K2 / K5 visible in the definition of shown) and Limits.limit_that_does_not_bite (depth above the levels of the value = depth None). C11.depth_zero_placeholder, unlimited_never_zero. Correspondence and oracle on container trees with unique leaves x depth in {0..height+2, None}: exactly the leaves nested in fewer than depth containers appear; depth > height == None; the whole output equals (as a syntax tree) a reference pruning with typed placeholders, also under max_seq_len 1 and 2 (containers longer than the limit above, at and below the cut). Known findings K2 (None/bool/Ellipsis leaves), K5 (str dict keys at the cut).',
         'note': 'value-level end-to-end theorem (reader . pformatM = id / token invariance) is not proved yet: the claim rests on C04.sound_pformat (unconditional) for the engine, C02 for the splitter, the listed syntactic lemmas about the printer model, the model=code correspondence on SDoc streams, and the CPython oracle run on every implementation output',
         'technique': 'Lean 4 lemmas + differential correspondence + leaf-visibility oracle',
         'design_ref': 'DESIGN.md section 5, C11',
     },
     'C17': {
-        'text': 'C17.empty_call, hug_only_exact. Correspondence on objects printed through pretty_call_alt (0-3 positional, 0-2 keyword arguments, nested calls, commented arguments) alone and nested; oracle: eval rebuilds the same callable with arguments in order. Dataclasses / attrs field selection is checked by the oracle section.',
+        'text': 'C17.empty_call, hug_only_exact; on tokens (via C03.output_tokens, for every layout): C17.call_tokens / kw_tokens — name, '(', the positional arguments in order, then name = value for the keyword arguments in the order given, each argument with exactly the tokens it has when printed alone, ')'. Correspondence on objects printed through pretty_call_alt (0-3 positional, 0-2 keyword arguments, nested calls, commented arguments) alone and nested; oracle: eval rebuilds the same callable with arguments in order. Dataclasses / attrs field selection is checked by the oracle section.',
         'note': 'value-level end-to-end theorem (reader . pformatM = id / token invariance) is not proved yet: the claim rests on C04.sound_pformat (unconditional) for the engine, C02 for the splitter, the listed syntactic lemmas about the printer model, the model=code correspondence on SDoc streams, and the CPython oracle run on every implementation output',
         'technique': 'Lean 4 lemmas + differential correspondence + eval oracle',
         'design_ref': 'DESIGN.md section 5, C17',
@@ -63,13 +63,13 @@ CLAIMS = {
         'design_ref': 'DESIGN.md section 5, C15',
     },
     'C19': {
-        'text': "Lean theorems C15.history_independent (printing / querying never changes the printer a later print uses: it depends on the registration history alone) and C19.pure_function (no hidden state reaches the model). Runtime part (partial): a corpus of 59 values (built-ins, cycles, shared substructure, both zeros, stdlib types, unregistered objects) printed in random permutations with repetitions under several settings, every output compared with the one obtained when the value is printed first in a fresh interpreter; canonical deep snapshots of all inputs before and after.",
+        'text': "Lean theorems C15.history_independent (printing / querying never changes the printer a later print uses: it depends on the registration history alone) and C19.pure_function (no hidden state reaches the model). Runtime part (partial): a corpus of 83 values (built-ins, cycles, shared substructure, both zeros, stdlib types incl. struct sequences, unregistered objects, predicate-registered printers, same-named classes) printed (a) as every ordered pair and sampled triples from a forked state in which nothing has been printed yet, (b) in random permutations with repetitions under several settings, every output compared with the one obtained when the value is printed first in a fresh interpreter; canonical deep snapshots of all inputs before and after.",
         'note': "partial: input immutability cannot be stated over immutable model values and is checked by snapshots only; mutation through user __eq__/__hash__/__missing__ side effects or generators is not covered",
         'technique': 'Lean 4 proof (history independence via the C15 refinement) + fresh-interpreter / permutation / snapshot exploration',
         'design_ref': 'DESIGN.md section 5, C19',
     },
     'C20': {
-        'text': "Lean theorem C20.linearizable: in the small-step model of pretty_python_value's registry part (one step per access to the deferred dict / singledispatch object, after the F16 repair), for ANY number of threads, ANY classes, ANY starting registry state and EVERY schedule, each finished thread obtained exactly the printer a sequential print obtains; the model is total, so no step can raise. Proof: global invariant (effective registrations constant, deferred entries only disappear) + per-thread program-counter invariants, preserved by every step (step_inv) and stable under other threads' steps. Runtime part: real threads under a deterministic scheduler with a switch point at every such access; all schedules with <= 2 (thorough 3) pre-emptions for 7 scenarios; per schedule the results equal the sequential ones, nothing raises, and the global access log equals the Lean model's log for the same schedule.",
+        'text': "Lean theorem C20.linearizable: in the small-step model of pretty_python_value's registry part (one step per access to the deferred dict / singledispatch object, after the F16 repair), for ANY number of threads, ANY classes, ANY starting registry state and EVERY schedule, each finished thread obtained exactly the printer a sequential print obtains; the model is total, so no step can raise. Proof: global invariant (effective registrations constant, deferred entries only disappear) + per-thread program-counter invariants, preserved by every step (step_inv) and stable under other threads' steps. Runtime part: real threads under a deterministic scheduler with a switch point at every such access; all schedules with <= 2 (thorough 3) pre-emptions for 7 scenarios; per schedule the results equal the sequential ones, nothing raises, and the global access log equals the Lean model's log for the same schedule. Second scheduler (line boundaries inside the package, sys.settrace): for every ordered pair of values of three scenarios (directly / by name / by predicate registered and unregistered classes, lazily registered stdlib types, dataclasses / attrs / ipython_repr_pretty extras) thread 1 is suspended at its k-th package line, thread 2 prints completely, thread 1 resumes, plus sampled two-pre-emption schedules; every schedule forks from a pristine state; both texts must equal a sequential result.",
         'note': "partial: atomicity granularity = one dict / singledispatch operation (atomic under the GIL); pre-emption inside such an operation, free-threaded builds, concurrent registration and cpprint's global colour palette are not covered",
         'technique': 'Lean 4 proof (invariant over all interleavings of a small-step model) + deterministic-scheduler exploration of real threads with log-level correspondence',
         'design_ref': 'DESIGN.md section 5, C20',
@@ -87,13 +87,13 @@ CLAIMS = {
         'design_ref': 'DESIGN.md section 5, C16',
     },
     'C13': {
-        'text': "Lean model of printing an object graph with the visited set (unfold, total by well-founded recursion on the number of objects not on the current path — this IS the termination claim for every finite graph); theorems C13.marker_iff_on_path (a container becomes a recursion marker exactly when it is reached again while being printed, and nowhere else), shared_printed_in_full, marker_text (names type and identity), no_residue. Tied to /repo by printing real list/dict/tuple graphs (all 2-node graphs with <= 2 children, sampled 3-node graphs, random graphs of 3-12 nodes, witnesses) at two widths, printing them again and re-printing the previous value; the text is compared with the model (real id() digits substituted) and the marker/bracket sequence with an independent path-based DFS. F10 repaired.",
+        'text': "Lean model of printing an object graph with the visited set (unfold, total by well-founded recursion on the number of objects not on the current path — this IS the termination claim for every finite graph); theorems C13.marker_iff_on_path (a container becomes a recursion marker exactly when it is reached again while being printed, and nowhere else), shared_printed_in_full, marker_text (names type and identity), no_residue. Tied to /repo by printing real list/dict/tuple graphs (all 2-node graphs with <= 2 children, sampled 3-node graphs, random graphs of 3-12 nodes, witnesses) at two widths and under a finite depth limit, printing them again and re-printing the previous value; the text is compared with the model (real id() digits substituted) and the marker/bracket sequence with an independent path-based DFS. F10 repaired.",
         'note': "the visited set is modelled as the current DFS path, which is what the try/finally of the F10 repair guarantees; a regression of that repair shows as a correspondence failure and in the fixed-finding replay",
         'technique': 'Lean 4 proof (well-founded unfolding of a graph, marker characterisation) + differential correspondence + reference-DFS oracle',
         'design_ref': 'DESIGN.md section 5, C13',
     },
     'C14': {
-        'text': "Lean theorem C14.contained: for EVERY tree of instrumented objects and EVERY invocation index k inside it, if the k-th printer invocation raises, printing returns the fault-free result with exactly that value replaced by its repr and exactly one warning naming that value's printer (run_fault / run_noFault by mutual structural induction with the invocation counter generalised); fault_free, independent, bad_return (ValueError at top level), bad_return_nested. Tied to /repo by running every tree of <= 4 (thorough 5) objects x every invocation index x exception classes incl. TypeError x {plain, under trailing_comment} x printers with / without a trailing_comment parameter, bad return values at every index and sampled fault pairs, each followed by a fault-free call; observed: which values fell back to repr (parsed from the output), which printers the warnings name, escaping ValueError. F10, F11 repaired.",
+        'text': "Lean theorem C14.contained: for EVERY tree of instrumented objects and EVERY invocation index k inside it, if the k-th printer invocation raises, printing returns the fault-free result with exactly that value replaced by its repr and exactly one warning naming that value's printer (run_fault / run_noFault by mutual structural induction with the invocation counter generalised); fault_free, independent, bad_return (ValueError at top level), bad_return_nested. Tied to /repo by running every tree of <= 4 (thorough 5) objects x every invocation index x exception classes incl. TypeError x {plain, under trailing_comment} x printers with / without a trailing_comment parameter x printers registered by class and by predicate (plus a catch-all predicate printer), bad return values at every index and sampled fault pairs, each followed by a fault-free call; observed: which values fell back to repr (parsed from the output), which printers the warnings name, escaping ValueError. F10, F11, F21 repaired.",
         'note': "faults are injected at printer entry; the model does not distinguish exception classes (the correspondence does)",
         'technique': 'Lean 4 proof (mutual induction over trees, invocation counter) + exhaustive fault enumeration as correspondence',
         'design_ref': 'DESIGN.md section 5, C14',
